@@ -1045,3 +1045,10 @@ package vm
 //@ ensures [ok] result == (old(c.Gas) >= gas)
 //@ ensures [deducted] result ==> c.Gas == old(c.Gas) - gas
 //@ ensures [refused] !result ==> c.Gas == old(c.Gas)
+
+// EXP's dynamic gas is priced by the byte length of the EXPONENT, the second item from the top of the stack (the base is on top):
+// G_exp + G_expbyte * bytes(exponent). Thin typestate clause on which operand's length is taken (the arithmetic around it is three
+// lines; BitLen stays a library call).
+//@ func gasExp props C15
+//@ requires [nonnil] stack != nil && len(stack.data) >= 2 && len(stack.data) < 2^62
+//@ assert before call (*math/big.Int).BitLen: [length-of-the-exponent] a0 == stack.data[len(stack.data) - 2]
